@@ -318,6 +318,14 @@ theorem foldl_ptr {cfg : Cfg} {nm : String} {view : View}
     foldl_ptr f hf l (f acc x) (fun y hy => hl y (List.mem_cons_of_mem _ hy))
       (hf acc x (hl x (List.mem_cons_self ..)) h)
 
+theorem genServerName_tr {cfg : Cfg} {nm : String} {view : View} (enc : String → String) (now : Int)
+    (acc : Target × List Event) (hnm : nm ≠ "") (h : PTr cfg nm view acc) :
+    PTr cfg nm view (genServerName cfg enc now true acc) := by
+  unfold genServerName
+  split
+  · exact genMetaOne_tr enc now acc _ _ _ hnm (by decide) h
+  · exact h
+
 theorem generateMetaUpdates_tr {cfg : Cfg} {nm : String} {view : View} (enc : String → String) (now : Int)
     (t : Target) (hnm : nm ≠ "") (h : PTr cfg nm view (t, [])) :
     PTr cfg nm view (t.generateMetaUpdates cfg enc now true) := by
@@ -338,7 +346,7 @@ theorem generateMetaUpdates_tr {cfg : Cfg} {nm : String} {view : View} (enc : St
     (by intro acc x hx hp; split
         · exact genMetaOne_tr enc now acc x _ _ hnm hx hp
         · exact hp) intNames _ (by decide) s1
-  exact foldl_ptr (cfg := cfg) (nm := nm) (view := view) (fun acc name =>
+  have s3 := foldl_ptr (cfg := cfg) (nm := nm) (view := view) (fun acc name =>
       match acc.1.md.getStr name with
       | some v => genMetaOne cfg enc now true acc name (.str v)
           (fun sv => match sv with | .scalar (.str s) => s == v | _ => false)
@@ -346,6 +354,7 @@ theorem generateMetaUpdates_tr {cfg : Cfg} {nm : String} {view : View} (enc : St
     (by intro acc x hx hp; split
         · exact genMetaOne_tr enc now acc x _ _ hnm hx hp
         · exact hp) strNames _ (by decide) s2
+  exact genServerName_tr enc now _ hnm s3
 
 theorem updateMeta_tr {cfg : Cfg} {nm : String} {view : View} (enc : String → String) (now : Int)
     (t : Target) (hnm : nm ≠ "") (hn : t.name = nm) (hg : GT cfg nm view t.tree) :
